@@ -379,6 +379,7 @@ func makeIntrinsics() map[string]intrinsicFn {
 	addReflectIntrinsics(m)
 	addLibIntrinsics(m)
 	addProtoIntrinsics(m)
+	addDynIntrinsics(m)
 	addBase64Intrinsics(m)
 	return m
 }
